@@ -50,6 +50,7 @@ C20Cases == {[kind |-> "c20", rule |-> <<k, c, ex>>, pl |-> "flat", sur |-> "pla
             \cup {[kind |-> "c20", rule |-> <<k, c, ex>>, pl |-> "flat", sur |-> "plain"] : k \in {"string", "int32", "uint32", "uint64", "fixed32", "sint32", "float"}, c \in {"one", "opt", "rep"}, ex \in {"awkward", "range"}}
             \cup {c \in {[kind |-> "c20", rule |-> <<k, "one", "parsable">>, pl |-> n, sur |-> "plain"] : k \in {"string", "int64", "int32", "enum", "msg", "ts"}, n \in MockNestings \ {"flat"}} :
                      c.pl = "xpkg" => c.rule[1] \notin {"enum", "msg"}}
+            \cup {[kind |-> "c20", rule |-> <<k, c, "padded">>, pl |-> "flat", sur |-> "plain"] : k \in {"int32", "int64", "uint32", "uint64"}, c \in {"one", "rep"}}
 
 Cases == CASE Family = "C12" -> C12Cases [] Family = "C13" -> C13Cases [] Family = "C18" -> C18Cases [] Family = "C20" -> C20Cases [] Family = "C14" -> C14Cases [] Family = "C15" -> C15Cases [] Family = "C16" -> C16Cases
 
